@@ -6,7 +6,6 @@ import (
 	"go/constant"
 	"go/token"
 	"go/types"
-	"os"
 	"sort"
 	"strings"
 
@@ -643,6 +642,35 @@ func c02Reset(c *Ctx, p *Prog) {
 		}
 	})
 	c.Check(hasFile, R, "Files.Scan:file-label", p.pos(resetCall.Pos()), "Reset installs the .file label", "Reset is not given the .file label")
+	// positions name the file that was opened: the name handed to Reset is the very path handed to os.Open (in the
+	// opener, or in a helper of the package the opener gives it to)
+	var opened ssa.Value
+	eachInstr(scanOrOpener, func(_ *ssa.BasicBlock, in ssa.Instruction) {
+		call, ok := in.(*ssa.Call)
+		if !ok {
+			return
+		}
+		if objIs(calleeObj(&call.Call), "os", "", "Open") {
+			opened = call.Call.Args[0]
+			return
+		}
+		if sc := call.Call.StaticCallee(); sc != nil && sc.Blocks != nil && sc.Pkg == scanOrOpener.Pkg {
+			for _, oc := range callsIn(sc, "os", "", "Open") {
+				for i, prm := range sc.Params {
+					if oc.Common().Args[0] == ssa.Value(prm) {
+						opened = callArgs(&call.Call)[i]
+					}
+				}
+			}
+		}
+	})
+	if opened != nil && resetCall.Parent() == scanOrOpener {
+		args := callArgs(&resetCall.Call)
+		c.Check(len(args) >= 3 && sameValue(args[2], opened), R, "Files.Scan:position-file-name", p.pos(resetCall.Pos()), "the reader is reset with the path that was opened as its file name",
+			"the file name the reader is reset with is not the path that was opened: positions of results, unit metadata and syntax errors then name something that is not the file (the label, a disambiguated path#N), so a diagnostic cannot be followed to its line")
+	} else {
+		c.OK(R, "Files.Scan:position-file-name", p.pos(resetCall.Pos()), "no os.Open beside the reset (opened elsewhere): not decided here")
+	}
 }
 
 // ---- R5 ----
@@ -801,10 +829,55 @@ func c02Labels(c *Ctx, p *Prog) {
 			}
 			n++
 			key := fmt.Sprintf("Files.init[labelled=%v]#%d", labelled, n)
-			if os.Getenv("PERFCHECK_DEBUG") != "" {
-				for _, k := range sortedKeys(o.Mem) {
-					fmt.Fprintf(os.Stderr, "MEM %s = %s\n", k, o.Mem[k])
+			// what the new input is made of: unlabelled — label and path are both the whole argument; labelled — the
+			// label is the argument up to its first '=' and the path what follows it
+			var label, path *Sym
+			for _, k := range sortedKeys(o.Mem) {
+				if !strings.HasPrefix(k, "&alloc:complit") {
+					continue
 				}
+				switch {
+				case strings.HasSuffix(k, ".label"):
+					label = o.Mem[k]
+				case strings.HasSuffix(k, ".path"):
+					path = o.Mem[k]
+				}
+			}
+			if label != nil && path != nil {
+				isArg := func(s *Sym) bool {
+					return s.Op == "load" && len(s.Args) == 1 && s.Args[0].Op == "indexaddr"
+				}
+				isEqIndex := func(s *Sym) bool {
+					return s.Op == "call" && strings.HasPrefix(s.Name, "strings.Index") && len(s.Args) == 2 && isArg(s.Args[0]) && s.Args[1].String() == "\"=\""
+				}
+				isCutPart := func(s *Sym, idx int) bool {
+					return s.Op == "extract" && s.Idx == idx && len(s.Args) == 1 && s.Args[0].Op == "call" && strings.HasPrefix(s.Args[0].Name, "strings.Cut") && len(s.Args[0].Args) == 2 && isArg(s.Args[0].Args[0]) && s.Args[0].Args[1].String() == "\"=\""
+				}
+				unset := func(s *Sym) bool { return s == nil || s.String() == "zero" || s.String() == "0" }
+				before := func(s *Sym) bool {
+					if isCutPart(s, 0) {
+						return true
+					}
+					return s.Op == "slice" && len(s.Args) >= 3 && isArg(s.Args[0]) && unset(s.Args[1]) && s.Args[2] != nil && isEqIndex(s.Args[2])
+				}
+				after := func(s *Sym) bool {
+					if isCutPart(s, 1) {
+						return true
+					}
+					if !(s.Op == "slice" && len(s.Args) >= 3 && isArg(s.Args[0]) && unset(s.Args[2]) && s.Args[1] != nil) {
+						return false
+					}
+					lo := s.Args[1]
+					return lo.Op == "binop" && lo.Tok == token.ADD && len(lo.Args) == 2 && ((isEqIndex(lo.Args[0]) && lo.Args[1].String() == "1") || (isEqIndex(lo.Args[1]) && lo.Args[0].String() == "1"))
+				}
+				okParts := false
+				if labelled {
+					okParts = before(label) && after(path)
+				} else {
+					okParts = isArg(label) && isArg(path) && label.String() == path.String()
+				}
+				c.Check(okParts, R, key+":parts", site, "label and path are the argument's two sides of its first '=' when labelled, the whole argument otherwise",
+					fmt.Sprintf("with labelled=%v the new input gets label %s and path %s: an argument that is not split must keep its whole text as label and as path (a plain path containing '=' would otherwise get a truncated .file), and a split one is cut at its first '='", labelled, truncate(label.String(), 120), truncate(path.String(), 120)))
 			}
 			c.Check((counted == 1) == !labelled, R, key, site, fmt.Sprintf("labelled=%v, counted towards duplicates=%v", labelled, counted == 1),
 				fmt.Sprintf("an input with explicit label=%v is counted %d times towards 'same path given more than once': a path given once plainly and once as label=path makes the plain one look duplicated (its results get .file \"path#0\"), or an unlabelled duplicate is not disambiguated (%s)", labelled, counted, o.AssignStr()))
